@@ -1,4 +1,5 @@
 import Driver.Proto
+import Driver.PParse
 import RedactVerif.Model.Format
 /-
 Line-protocol driver: one case per input line, one answer per output line.
@@ -72,6 +73,7 @@ def answer (line : String) : String :=
       | some st => fstateStr st
       | none => "none"
     | _, _ => bad
+  | "pr" :: toks => answerPrinter toks
   | "buf" :: toks => runOps "buf" {} toks
   | "bld" :: toks => runOps "bld" {} toks
   | "adp" :: ov :: md :: toks =>
